@@ -13,6 +13,16 @@ void vh_xq_dump_client(FILE *f, struct iauth_request *req)
     }
     fprintf(f, "{\"t\":\"xq\",\"id\":%d,\"modes\":%u,\"sent\":%u,\"ref\":%u,\"more\":%u,\"ok\":%u",
             req->client, (unsigned)cli->modes.bits[0], cli->sent_mask, cli->ref_mask, cli->more_mask, cli->ok_mask);
+    {
+        /* which slots were refilled since this client's masks were last brought up to date (fix 27f0830): the epoch numbers themselves grow for ever
+         * and would keep equal states apart, this relation is what the module's behaviour depends on */
+        unsigned int ii, refilled = 0;
+        if (cli->epoch != iauth_xquery_epoch)
+            for (ii = 0; ii < iauth_xquery_services.used && ii < 32; ++ii)
+                if (!iauth_xquery_services.vec[ii] || iauth_xquery_services.vec[ii]->epoch > cli->epoch)
+                    refilled |= 1u << ii;
+        fprintf(f, ",\"refilled\":%u", refilled);
+    }
     VH_JS(f, "pw", cli->password);
     fputs("}\n", f);
 }
